@@ -168,7 +168,9 @@ func (s Shape) scale(latMax float64) float64 {
 
 type lattice struct {
 	vals    []float64
-	n       int // points
+	far     bool      // not a lattice: the far-field ladder points used for combinators / Translate
+	R       []float64 // far only: distance of each point from the origin (per-point tolerance scale)
+	n       int       // points
 	X, Y, Z []float64
 	max     float64
 }
@@ -190,6 +192,22 @@ func newLattice(vals []float64) *lattice {
 }
 
 func (l *lattice) at(i int) P3 { return P3{l.X[i], l.Y[i], l.Z[i]} }
+
+// mag is the magnitude tolerances at point i are scaled with (lattice: its extent; far points: their radius).
+func (l *lattice) mag(i int) float64 {
+	if l.far {
+		return l.R[i]
+	}
+	return l.max
+}
+
+// pre prefixes evidence scopes and violation classes of the far-field sub-scope.
+func (l *lattice) pre() string {
+	if l.far {
+		return "ladder/"
+	}
+	return ""
+}
 
 var (
 	latQuick    = []float64{-3, -2, -1, -0.5, 0, 0.5, 1, 2, 3}                       // 9³ = 729 points, 265 356 pairs
@@ -346,12 +364,15 @@ const (
 
 // Case is the replay record.
 type Case struct {
-	Kind  string    `json:"kind"` // "shape" | "op" | "translate"
+	Kind  string    `json:"kind"` // "shape" | "ladder" | "op" | "translate"
 	Shape *Shape    `json:"shape,omitempty"`
 	T     []float64 `json:"t,omitempty"`
 	Op    string    `json:"op,omitempty"`
 	Args  []int     `json:"args,omitempty"`
-	Lat   []float64 `json:"lat"`
+	Lat   []float64 `json:"lat,omitempty"`
+	Far   bool      `json:"far,omitempty"` // combinator / Translate case on the far-field ladder points
+	Ray   int       `json:"ray,omitempty"` // ladder: direction index and radius index of the reported sample
+	RIdx  int       `json:"ridx,omitempty"`
 	Class string    `json:"class,omitempty"`
 }
 
@@ -642,10 +663,10 @@ func (k checker) op(name string, args []int, L *lattice) {
 		}
 		names += ps[a].name
 	}
-	cs := Case{Kind: "op", Op: name, Args: args, Lat: L.vals}
+	cs := Case{Kind: "op", Op: name, Args: args, Lat: L.vals, Far: L.far}
 	siteName := map[string]string{"union": "sdf.Union", "intersect": "sdf.Intersect", "subtract": "sdf.Subtract"}[name]
-	class := fmt.Sprintf("arity-%d", len(args))
-	scope := "op/" + name + "/" + class
+	class := L.pre() + fmt.Sprintf("arity-%d", len(args))
+	scope := L.pre() + "op/" + name + fmt.Sprintf("/arity-%d", len(args))
 	var g sample.Vec3ToFloat
 	o := core.Guard(func() {
 		switch name {
@@ -667,13 +688,13 @@ func (k checker) op(name string, args []int, L *lattice) {
 		k.c.Violate(core.Violation{Site: siteName, Clause: clSetOp, Class: cs.Class, Detail: name + "(" + names + ") panicked: " + o.Msg, Case: cs})
 		return
 	}
-	band := 1e-9 * (1 + L.max)
 	var nOK, nBad, nBoundary int64
 	first := -1
 	var firstOps []float64
 	inN, outN := 0, 0
 	for i := 0; i < L.n; i++ {
 		p := vector3.New(L.X[i], L.Y[i], L.Z[i])
+		band := 1e-9 * (1 + L.mag(i))
 		ov := make([]float64, len(fs))
 		neg := make([]bool, len(fs))
 		onSurface := false
@@ -719,7 +740,7 @@ func (k checker) op(name string, args []int, L *lattice) {
 			}
 		}
 		if want != neg[0] { // the combinator changes the membership of this point relative to its first operand
-			k.c.NontrivialHash(core.Hash("op", name, fmt.Sprint(args), i))
+			k.c.NontrivialHash(core.Hash(L.pre()+"op", name, fmt.Sprint(args), i))
 		}
 	}
 	k.evalN(scope, "ok", nOK)
@@ -754,8 +775,8 @@ func translands() []operand {
 // displaced point, is the reference (so a defect of a primitive is never attributed to Translate).
 func (k checker) translate(arg int, t P3, L *lattice) {
 	g := translands()[arg]
-	cs := Case{Kind: "translate", Args: []int{arg}, T: t[:], Lat: L.vals}
-	scope := "translate"
+	cs := Case{Kind: "translate", Args: []int{arg}, T: t[:], Lat: L.vals, Far: L.far}
+	scope := L.pre() + "translate"
 	var vals []float64
 	var f sample.Vec3ToFloat
 	o := core.Guard(func() { f = sdf.Translate(g.f, v3(t)) })
@@ -764,15 +785,15 @@ func (k checker) translate(arg int, t P3, L *lattice) {
 	}
 	if o.Panicked {
 		k.c.Eval(scope, "panic")
-		k.c.Violate(core.Violation{Site: "sdf.Translate", Clause: clMove, Class: "panic", Detail: o.Msg, Case: cs})
+		k.c.Violate(core.Violation{Site: "sdf.Translate", Clause: clMove, Class: L.pre() + "panic", Detail: o.Msg, Case: cs})
 		return
 	}
-	tol := 1e-12 * (1 + L.max + norm(t))
 	var nOK, nBad int64
 	first := -1
 	moved := 0
 	for i := 0; i < L.n; i++ {
 		want := g.f(vector3.New(L.X[i]-t[0], L.Y[i]-t[1], L.Z[i]-t[2]))
+		tol := 1e-12 * (1 + L.mag(i) + norm(t))
 		if fin(vals[i]) && math.Abs(vals[i]-want) <= tol {
 			nOK++
 		} else {
@@ -788,12 +809,12 @@ func (k checker) translate(arg int, t P3, L *lattice) {
 	k.evalN(scope, "ok", nOK)
 	k.evalN(scope, "mismatch", nBad)
 	if moved > 0 {
-		k.c.Nontrivial("tr", arg, fmt.Sprint(t))
+		k.c.Nontrivial(L.pre()+"tr", arg, fmt.Sprint(t))
 	}
 	k.c.Sample(scope, map[string]any{"case": cs, "field": g.name, "points_changing_membership": moved})
 	if nBad > 0 {
 		i := first
-		k.c.Violate(core.Violation{Site: "sdf.Translate", Clause: clMove, Class: "lattice-offset",
+		k.c.Violate(core.Violation{Site: "sdf.Translate", Clause: clMove, Class: L.pre() + "lattice-offset",
 			Detail: fmt.Sprintf("Translate(%s, %v): %d of %d points differ from f(p−t); first p=%v got=%.17g want=%.17g", g.name, t, nBad, L.n, L.at(i), vals[i],
 				g.f(vector3.New(L.X[i]-t[0], L.Y[i]-t[1], L.Z[i]-t[2]))), Case: cs})
 	}
@@ -817,6 +838,13 @@ func run(c *core.Ctx) {
 	}
 	c.Bound("shapes_per_kind", perKind)
 
+	ladderSel, nLadder := ladderSelection(shapes, c.Thorough())
+	c.Bound("ladder_shapes", nLadder)
+	c.Bound("ladder_directions", len(ladderDirs))
+	c.Bound("ladder_samples_per_ray", len(ladderRel))
+	c.Bound("ladder_radii_relative_to_shape_size", []float64{ladderRel[0], ladderRel[len(ladderRel)-1]})
+	c.Bound("ladder_ratio", ladderRel[1]/ladderRel[0])
+
 	idx := 0
 	for _, s := range shapes {
 		mine := c.Mine(idx)
@@ -828,6 +856,9 @@ func run(c *core.Ctx) {
 			return
 		}
 		k.shape(s, L)
+		if ladderSel[idx-1] {
+			k.ladder(s)
+		}
 	}
 
 	// combinators: every ordered pair for the three operators, arity 1, every ordered triple and a
@@ -885,6 +916,40 @@ func run(c *core.Ctx) {
 			k.translate(a, t, L)
 		}
 	}
+
+	// far field: combinators (all ordered pairs, rings of arity 3 and 4) and Translate on the ladder
+	// points of a handful of rays from the origin
+	F := farPoints()
+	c.Bound("ladder_far_points_for_combinators", F.n)
+	doFar := func(name string, args ...int) {
+		mine := c.Mine(idx)
+		idx++
+		if !mine || c.Expired() {
+			return
+		}
+		k.op(name, args, F)
+	}
+	for a := 0; a < np; a++ {
+		for b := 0; b < np; b++ {
+			doFar("union", a, b)
+			doFar("intersect", a, b)
+			doFar("subtract", a, b)
+		}
+		doFar("union", a, (a+1)%np, (a+4)%np)
+		doFar("intersect", a, (a+1)%np, (a+4)%np)
+		doFar("union", a, (a+3)%np, (a+4)%np, (a+7)%np)
+		doFar("intersect", a, (a+3)%np, (a+4)%np, (a+7)%np)
+	}
+	for a := 0; a < nt; a++ {
+		for _, t := range grid3([]float64{-1, 0, 0.5}) {
+			mine := c.Mine(idx)
+			idx++
+			if !mine || c.Expired() {
+				continue
+			}
+			k.translate(a, t, F)
+		}
+	}
 }
 
 func replay(c *core.Ctx) {
@@ -898,11 +963,16 @@ func replay(c *core.Ctx) {
 	}
 	k := checker{c}
 	L := newLattice(cs.Lat)
+	if cs.Far {
+		L = farPoints()
+	}
 	var t P3
 	copy(t[:], cs.T)
 	switch cs.Kind {
 	case "shape":
 		k.shape(*cs.Shape, L)
+	case "ladder":
+		k.ladder(*cs.Shape)
 	case "op":
 		k.op(cs.Op, cs.Args, L)
 	case "translate":
